@@ -143,6 +143,8 @@ func (c *diskCache) findMissingCasBlobsInternal(ctx context.Context, blobs []*pb
 			close(waitCh)
 		}()
 
+		verifYield("findmissing.wait")
+
 		// Wait for all proxyChecks to finish or a context cancellation.
 		select {
 		case <-ctx.Done():
